@@ -25,6 +25,8 @@ type TableSpec struct {
 	Rows   [][]JV `json:"rows"`
 	// OmitNull: JSON only — per row/col, write a NULL as a missing key instead of an explicit null
 	OmitNull bool `json:"omit_null,omitempty"`
+	// Declared: the column kinds are declared (in-memory tables), every column nullable; nothing is inferred from rows
+	Declared bool `json:"declared,omitempty"`
 }
 
 func (t TableSpec) File() string { return t.Name + "." + t.Format }
@@ -32,6 +34,9 @@ func (t TableSpec) File() string { return t.Name + "." + t.Format }
 // InferredKind is what octosql's schema inference must conclude for column i:
 // kind ("null" if every previewed cell is NULL) and nullability.
 func (t TableSpec) InferredKind(i int) (kind string, nullable bool) {
+	if t.Declared {
+		return t.Cols[i].Kind, true
+	}
 	kind = "null"
 	for r, row := range t.Rows {
 		if r >= 100 {
